@@ -436,6 +436,8 @@ struct Job {
     delay_ms: u64,
     /// internal: the max-hold timer of a held reply fired
     release_held: Option<u64>,
+    /// write the frame in pieces split at these offsets, pausing this many ms in between
+    chunks: Option<(Vec<usize>, u64)>,
     /// keyspace that becomes the connection's ACKED keyspace when this reply has been written
     /// completely (RESULT/SetKeyspace)
     ack_ks: Option<String>,
@@ -541,7 +543,7 @@ async fn serve_conn(sh: Arc<Shared>, node: usize, stream: TcpStream, peer: Socke
                 Some(ConnCmd::Close(k)) => { break 'main cut(&c.lg(), &mut wr, k).await; }
                 Some(ConnCmd::Event(body)) => {
                     let f = Frame::response(-1, op::EVENT, body);
-                    if let Some(k) = c.write_job(&mut wr, Job { out: Out::Frame(f), cut: None, reorder: 0, delay_ms: 0, release_held: None, ack_ks: None }, &mut pending).await {
+                    if let Some(k) = c.write_job(&mut wr, Job { out: Out::Frame(f), cut: None, reorder: 0, delay_ms: 0, release_held: None, ack_ks: None, chunks: None }, &mut pending).await {
                         break 'main k;
                     }
                 }
@@ -656,7 +658,7 @@ impl Conn {
             self.held.push((hid, target, j));
             pending.push(Box::pin(async move {
                 tokio::time::sleep(REORDER_MAX_HOLD).await;
-                Job { out: Out::Nothing, cut: None, reorder: 0, delay_ms: 0, release_held: Some(hid), ack_ks: None }
+                Job { out: Out::Nothing, cut: None, reorder: 0, delay_ms: 0, release_held: Some(hid), ack_ks: None, chunks: None }
             }));
             return None;
         }
@@ -738,7 +740,29 @@ impl Conn {
                     };
                     // logged BEFORE the write (see above)
                     self.log(Ev::Out { version: f.version, flags: f.flags, stream: f.stream, opcode: f.opcode, body: f.body, written: n });
-                    let r = wr.write_all(&enc[..n]).await;
+                    let r = match &job.chunks {
+                        None => wr.write_all(&enc[..n]).await,
+                        Some((offs, pause)) => {
+                            let mut cuts: Vec<usize> = offs.iter().copied().filter(|o| *o > 0 && *o < n).collect();
+                            cuts.sort();
+                            cuts.dedup();
+                            cuts.push(n);
+                            let mut at = 0;
+                            let mut r = Ok(());
+                            for c in cuts {
+                                r = wr.write_all(&enc[at..c]).await;
+                                let _ = wr.flush().await;
+                                if r.is_err() {
+                                    break;
+                                }
+                                at = c;
+                                if at < n {
+                                    tokio::time::sleep(Duration::from_millis(*pause)).await;
+                                }
+                            }
+                            r
+                        }
+                    };
                     let _ = wr.flush().await;
                     if r.is_err() {
                         return Some(CloseBy::Client);
@@ -777,7 +801,7 @@ impl Conn {
         let seq = self.sh.seq.fetch_add(1, Ordering::SeqCst);
         self.log(Ev::In { version: f.version, flags: f.flags, stream: f.stream, opcode: f.opcode, body: f.body.clone() });
         let stream = f.stream;
-        let plain = |out: Out| Job { out, cut: None, reorder: 0, delay_ms: 0, release_held: None, ack_ks: None };
+        let plain = |out: Out| Job { out, cut: None, reorder: 0, delay_ms: 0, release_held: None, ack_ks: None, chunks: None };
         let frame = |opcode: u8, body: Vec<u8>| Out::Frame(Frame::response(stream, opcode, body));
         let perr = |msg: &str| frame(op::ERROR, body_error(&ErrorSpec::new(DbErr::ProtocolError, msg)));
         if f.flags & wire::flag::COMPRESSION != 0 {
@@ -941,6 +965,7 @@ impl Conn {
                 Action::TabletPayload(b) => payload = Some(b),
                 Action::Warnings(w) => warnings = Some(w),
                 Action::FrameVersion(v) => version = v,
+                Action::Chunked(offs, pause) => job.chunks = Some((offs, pause)),
                 Action::Rows(spec) => reply = Some(frame(op::RESULT, body_result_rows(&spec, skip))),
                 Action::Error(e) => reply = Some(frame(op::ERROR, body_error(&e))),
                 Action::Unprepared => {
